@@ -267,7 +267,10 @@ def order_domain(ctx, repo):
                 return ks.pop() if len(ks) == 1 else "?"
             if isinstance(e, ast.BinOp) and isinstance(e.op, ast.Sub) and isinstance(e.right, ast.Call) and ast.unparse(e.right.func).endswith("timedelta"):
                 kws = {kw.arg: getattr(kw.value, "value", None) for kw in e.right.keywords}
-                if kws == {"days": 1} and isinstance(e.left, ast.Call) and ast.unparse(e.left.func) in ("numpy.max", "np.max", "max"):
+                left = e.left
+                if isinstance(left, ast.Name) and left.id in la and len(la[left.id]) == 1:
+                    left = la[left.id][0]
+                if kws == {"days": 1} and isinstance(left, ast.Call) and ast.unparse(left.func) in ("numpy.max", "np.max", "max"):
                     return "day-before-entry"
                 return "?"
             if isinstance(e, ast.Call) and ast.unparse(e.func) in ("numpy.max", "np.max", "max", "numpy.min", "np.min", "min"):
